@@ -36,9 +36,12 @@ pub enum Op {
     /// `add_sibling_alts_for_unknown_field` on a bundle (what a `flatten` member's parent does):
     /// the tree keeps its shape, locations and spans
     AddAlts,
+    /// render the top (`to_string()`, `{:?}`, `len()`, `has_span()`): looking at an error changes
+    /// nothing about it, whatever is done to it afterwards
+    Render,
 }
 
-pub const OPS: [Op; 12] = [Op::Leaf, Op::SynLeaf, Op::At, Op::AtSame, Op::WithSpan, Op::Multiple1, Op::Multiple2, Op::Multiple3, Op::Flatten, Op::Clone, Op::IntoIter, Op::AddAlts];
+pub const OPS: [Op; 13] = [Op::Leaf, Op::SynLeaf, Op::At, Op::AtSame, Op::WithSpan, Op::Multiple1, Op::Multiple2, Op::Multiple3, Op::Flatten, Op::Clone, Op::IntoIter, Op::AddAlts, Op::Render];
 
 const MAX_STACK: usize = 4;
 const N_KINDS: u32 = 11;
@@ -177,7 +180,7 @@ impl Machine {
         let n = model.len();
         match op {
             Op::Leaf | Op::SynLeaf => n < MAX_STACK,
-            Op::At | Op::AtSame | Op::WithSpan | Op::Flatten | Op::Multiple1 => n >= 1,
+            Op::At | Op::AtSame | Op::WithSpan | Op::Flatten | Op::Multiple1 | Op::Render => n >= 1,
             Op::Multiple2 => n >= 2,
             Op::Multiple3 => n >= 3,
             Op::Clone => n >= 1 && n < MAX_STACK && model[n - 1].size() <= 6,
@@ -264,6 +267,10 @@ impl Machine {
             Op::AddAlts => {
                 let e = self.real.pop().unwrap();
                 self.real.push(e.add_sibling_alts_for_unknown_field(&["zqzqzq", "qzqzqz"]));
+            }
+            Op::Render => {
+                let e = self.real.last().unwrap();
+                let _ = (e.to_string(), format!("{e:?}"), e.len(), e.has_span());
             }
             Op::IntoIter => {
                 let e = self.real.pop().unwrap();
@@ -607,7 +614,7 @@ fn model_step(model: &[RT], hist: &[Op], op: Op) -> Vec<RT> {
             let t = m.last().unwrap().clone();
             m.push(t);
         }
-        Op::AddAlts => {}
+        Op::AddAlts | Op::Render => {}
         Op::MultipleAll | Op::AtEmpty => unreachable!("not offered to the search"),
         Op::IntoIter => match m.pop().unwrap() {
             RT::Multi { kids, .. } => m.extend(kids),
